@@ -8,7 +8,7 @@ Require Import Num Vec Tactics rot_gen C28_Defs C28_Proofs C05_Model C05_Rot C05
 Local Open Scope R_scope.
 
 Ltac funf := cbv [Slider_fitT Slider_fitV Translation_fitT Translation_fitV Screw_fitT Screw_fitV Screw_fitW Pin_fitW
-  Planar_fitV Cylinder_fitV Gimbal_fitW Universal_fitW BendStretch_fitV Line_fitW Sph_fitV Sph_fitT Ball_fitW Free_fitV Ell_fitV]; cunf.
+  Planar_fitV Cylinder_fitV Gimbal_fitW Universal_fitW BendStretch_fitV Line_fitW Sph_fitV Sph_fitT Ball_fitW Free_fitV Ell_fitV_prefix Ell_fitU]; cunf.
 
 (** ** atan2 recovers an angle from its cosine and sine *)
 Lemma one_plus_sq c s : c <> 0 -> c*c + s*s = 1 -> 1 + Rsqr (s/c) = Rsqr (1/c).
@@ -168,26 +168,74 @@ Theorem Free_fit_roundtrip_q e0 e1 e2 e3' p : e0*e0+e1*e1+e2*e2+e3'*e3' = 1 ->
 Proof. intros H X; subst X. unfold Free_Xq. cbn [snd]. rewrite (Ball_fit_roundtrip_q e0 e1 e2 e3' H).
   rewrite quatR_unit by (vunf; lra). reflexivity. Qed.
 
-(** ** round trips the implementation does NOT satisfy (replayed on the code by checks/C05.py, known findings) *)
-(** BendStretch: a representable pose with negative stretch is not reproduced (the translation fit returns
+(** ** Ellipsoid (after fix 7c1ce7f5): transform and velocity fits are the rotational fits and are exact *)
+Theorem Ell_fitU_roundtrip r R u0 u1 u2 : Ell_fitU (Hu ROps (Ell_H ROps r R) (u0 :: u1 :: u2 :: nil)) = (u0,u1,u2).
+Proof. destruct r as [[a b] c]. destruct R as [[[[r0 r1] r2] [[r3 r4] r5]] [[r6 r7] r8]]. funf. teq; ring. Qed.
+Theorem Ell_fit_roundtrip_q r e0 e1 e2 e3' : e0*e0+e1*e1+e2*e2+e3'*e3' = 1 ->
+  Ell_Xq ROps r (Ball_fitRq ROps (fst (Ell_Xq ROps r (e0,e1,e2,e3')))) = Ell_Xq ROps r (e0,e1,e2,e3').
+Proof. intros H. unfold Ell_Xq. cbn [fst]. rewrite (quatR_unit (e0,e1,e2,e3')) by (vunf; lra).
+  rewrite (Ball_fit_roundtrip_q e0 e1 e2 e3' H). reflexivity. Qed.
+Lemma Ell_fit_roundtrip_e_partial r q0 q1 q2 : 0 < cos q1 ->
+  Ell_Xe ROps r (xyz_angles ROps (fst (Ell_Xe ROps r (q0,q1,q2)))) = Ell_Xe ROps r (q0,q1,q2).
+Proof. intros Hc. pose proof (Gimbal_fit_roundtrip_partial q0 q1 q2 Hc) as G. unfold Gimbal_fitR, Gimbal_X in G. cbn [fst] in G.
+  apply (f_equal fst) in G. cbn [fst] in G. unfold Ell_Xe. cbn [fst]. rewrite G. reflexivity. Qed.
+
+(** ** BendStretch (after fix c1dcbf40): the transform fit reproduces every representable pose, negative stretch included
+    (partial: the branch |p| < 4 eps of the translation fit is not modelled, so q1 <> 0) *)
+Lemma npi_is_PI : npi ROps = PI.
+Proof. unfold npi. change (natan2 ROps (n0 ROps) (nopp ROps (n1 ROps))) with (Ratan2 0 (-1)). unfold Ratan2.
+  destruct (Rlt_dec 0 (-1)); [lra|]. destruct (Rlt_dec (-1) 0); [|lra]. destruct (Rle_dec 0 0); [|lra].
+  replace (0 / -1) with 0 by field. rewrite atan_0. ring. Qed.
+Lemma BendStretch_fit_roundtrip_partial q0 q1 : q1 <> 0 ->
+  BendStretch_X ROps (BendStretch_fitX ROps (BendStretch_X ROps (q0,q1))) = BendStretch_X ROps (q0,q1).
+Proof. intros Hq. destruct (zangle_RotZ q0) as [Hc Hs]. sc q0.
+  unfold BendStretch_fitX. cbn [BendStretch_X fst snd]. set (cur := zangle ROps (RotZ ROps q0)) in *. clearbody cur.
+  unfold BendStretch_fitT. rewrite npi_is_PI.
+  assert (Ep : m33_mulv ROps (RotZ ROps q0) (q1, 0, 0) = (q1 * cos q0, q1 * sin q0, 0)) by (cunf; teq; ring).
+  rewrite Ep. cbv [v3_0 v3_1]. cbv [natan2 nsqrt nleb nltb ncos nsub nadd nmul nopp n0 ROps].
+  replace (q1 * cos q0 * (q1 * cos q0) + q1 * sin q0 * (q1 * sin q0)) with (Rsqr q1) by (unfold Rsqr; nsatz_or_fail).
+  rewrite sqrt_Rsqr_abs.
+  destruct (Rlt_dec 0 q1) as [Hp|Hp].
+  - (* positive stretch: the fitted angle has the cosine and sine of q0 *)
+    rewrite (Ratan2_scale q1 (sin q0) (cos q0) Hp). destruct (Ratan2_cos_sin (cos q0) (sin q0) ltac:(lra)) as [Ca Sa].
+    set (a := Ratan2 (sin q0) (cos q0)) in *. clearbody a.
+    assert (Hcos : cos (a - cur) = 1) by (rewrite cos_minus, Ca, Sa, Hc, Hs; lra).
+    rewrite Hcos. unfold Rleb. destruct (Rle_dec 0 1); [|lra]. rewrite Rabs_right by lra.
+    cbv [BendStretch_X RotZ Rz ncos nsin ROps]. rewrite Ca, Sa. reflexivity.
+  - (* negative stretch: atan2 gives the opposite direction, the fit turns it back by pi and negates d *)
+    assert (Hn : 0 < - q1) by lra.
+    replace (q1 * sin q0) with ((- q1) * (- sin q0)) by ring. replace (q1 * cos q0) with ((- q1) * (- cos q0)) by ring.
+    rewrite (Ratan2_scale (- q1) (- sin q0) (- cos q0) Hn). destruct (Ratan2_cos_sin (- cos q0) (- sin q0) ltac:(lra)) as [Ca Sa].
+    set (a := Ratan2 (- sin q0) (- cos q0)) in *. clearbody a.
+    assert (Hcos : cos (a - cur) = -1) by (rewrite cos_minus, Ca, Sa, Hc, Hs; lra).
+    rewrite Hcos. unfold Rleb. destruct (Rle_dec 0 (-1)); [lra|]. rewrite Rabs_left by lra. rewrite Ropp_involutive.
+    unfold Rltb. destruct (Rlt_dec 0 a).
+    + cbv [BendStretch_X RotZ Rz ncos nsin ROps]. rewrite cos_minus, sin_minus, cos_PI, sin_PI, Ca, Sa.
+      replace (- cos q0 * -1 + - sin q0 * 0) with (cos q0) by ring. replace (- sin q0 * -1 - - cos q0 * 0) with (sin q0) by ring. reflexivity.
+    + cbv [BendStretch_X RotZ Rz ncos nsin ROps]. rewrite neg_cos, neg_sin, Ca, Sa, !Ropp_involutive. reflexivity.
+Qed.
+
+(** ** regression lemmas: the fitters as they were BEFORE the fixes 7c1ce7f5 / c1dcbf40 did not have these properties
+    (the witnesses are run as fixed regression cases by harness/C05_probe.cpp and must now pass on the code) *)
+(** pre-fix BendStretch: a representable pose with negative stretch was not reproduced (the translation fit returned
     (atan2(p_y,p_x), |p|), i.e. the angle off by pi) *)
-Lemma BendStretch_fit_negative_stretch_refuted :
-  exists q0 q1, BendStretch_X ROps (BendStretch_fitT ROps (snd (BendStretch_X ROps (q0,q1)))) <> BendStretch_X ROps (q0,q1).
-Proof. exists 0, (-1). unfold BendStretch_fitT. cbn [BendStretch_X snd]. cbv [RotZ Rz ncos nsin ROps]. rewrite cos_0, sin_0. vunf.
+Lemma BendStretch_fit_prefix_negative_stretch_refuted :
+  exists q0 q1, BendStretch_X ROps (BendStretch_fitT_prefix ROps (snd (BendStretch_X ROps (q0,q1)))) <> BendStretch_X ROps (q0,q1).
+Proof. exists 0, (-1). unfold BendStretch_fitT_prefix. cbn [BendStretch_X snd]. cbv [RotZ Rz ncos nsin ROps]. rewrite cos_0, sin_0. vunf.
   replace (1 * -1 + - 0 * 0 + 0 * 0) with (-1) by ring. replace (0 * -1 + 1 * 0 + 0 * 0) with 0 by ring. replace (0 * -1 + 0 * 0 + 1 * 0) with 0 by ring.
   replace (-1 * -1 + 0 * 0) with 1 by ring. rewrite sqrt_1.
   assert (E : Ratan2 0 (-1) = PI).
   { unfold Ratan2. destruct (Rlt_dec 0 (-1)); [lra|]. destruct (Rlt_dec (-1) 0); [|lra]. destruct (Rle_dec 0 0); [|lra].
     replace (0 / -1) with 0 by field. rewrite atan_0. ring. }
   rewrite E. cbv [BendStretch_X RotZ Rz ncos nsin ROps]. rewrite cos_PI. intros C. injection C; intros. lra. Qed.
-(** Ellipsoid: the velocity fit (angular fit overwritten by a linear fit that is only right for a sphere) does not
+(** pre-fix Ellipsoid: the velocity fit (angular fit overwritten by a linear fit that is only right for a sphere) did not
     reproduce the speeds of a non-spherical ellipsoid.  Witness: semi-axes (1,2,3), F and M aligned, u = (1,0,0). *)
-Lemma Ell_fitV_refuted : exists r R u0 u1 u2, is_rot R /\
-  Ell_fitV ROps r R (Hu ROps (Ell_H ROps r R) (u0 :: u1 :: u2 :: nil)) <> (u0,u1,u2).
+Lemma Ell_fitV_prefix_refuted : exists r R u0 u1 u2, is_rot R /\
+  Ell_fitV_prefix ROps r R (Hu ROps (Ell_H ROps r R) (u0 :: u1 :: u2 :: nil)) <> (u0,u1,u2).
 Proof. exists (1,2,3), (m33_id ROps), 1, 0, 0. split; [ apply rot_id | ]. funf. intros C. injection C; intros. lra. Qed.
-(** ... and it does for a sphere when M is not rotated out of reach (r_M.z = radius <> 0) *)
-Lemma Ell_fitV_sphere_roundtrip a R u0 u1 u2 : a <> 0 -> is_rot R ->
-  Ell_fitV ROps (a,a,a) R (Hu ROps (Ell_H ROps (a,a,a) R) (u0 :: u1 :: u2 :: nil)) = (u0,u1,u2).
+(** ... and it did for a sphere when M is not rotated out of reach (r_M.z = radius <> 0) *)
+Lemma Ell_fitV_prefix_sphere_roundtrip a R u0 u1 u2 : a <> 0 -> is_rot R ->
+  Ell_fitV_prefix ROps (a,a,a) R (Hu ROps (Ell_H ROps (a,a,a) R) (u0 :: u1 :: u2 :: nil)) = (u0,u1,u2).
 Proof. intros Ha HR. generalize (rot_TM R HR) (rot_cof R HR). destruct HR as [HR HD]. revert HR HD.
   destruct R as [[[[r0 r1] r2] [[r3 r4] r5]] [[r6 r7] r8]]. cbv [cof m33_det]. funf. intros HR HD C K.
   injection C; clear C; intros. injection K; clear K; intros. injection HR; clear HR; intros.
